@@ -36,10 +36,12 @@ PROBES = ["copy_of_copy", "nice_on_scale_with_living_relative",
 RULE = (
     "Each run draws (from one PRNG seeded by sha256(VERIF_SEED:scale:i)) a magnitude regime "
     "(1e-6..1e9), orientation and clamp mix, and a history of 8-25 operations "
-    "NEW/DOMAIN/RANGE/CLAMP/NICE/COPY/DROP (+ rejected calls nice(0), domain(['x',1]) as "
-    "faults) over a pool of <=5 LinearScale objects related by copy(). After every operation: "
-    "I1 end points exact, I2 every non-target scale unchanged (reported state and mapped probe "
-    "values), I3 copy equals original, I4 setters echo, I5 affine/monotone/invertible/clamped "
+    "NEW/DOMAIN/RANGE/CLAMP/NICE/COPY/DROP, read-only TICKS/TICKFORMAT/CALL/INVERT (+ rejected calls "
+    "nice(0), domain(['x',1]), domain([None,1]) as faults) over a pool of <=5 (thorough: <=8, up to 60 ops) "
+    "LinearScale objects related by copy(). The run observes after every op, only at the end, or at a "
+    "seeded quarter of the steps (observer effect). At every observation: "
+    "I1 end points exact, I2 every scale not targeted by a state-changing op since the last observation "
+    "is unchanged (reported state and mapped probe values), I3 copy equals original, I4 setters echo, I5 affine/monotone/invertible/clamped "
     "against an exact rational model of the reported state. A run is non-trivial if at least "
     "one state-changing operation hit a scale that had a living relative (copy or original) and "
     "at least one step was checked; distinct = distinct (op-kind, target, relation) sequences."
